@@ -1,0 +1,16 @@
+//go:build verif
+
+// Contracts for the deductive checks in /verif (comment-only; not part of normal builds).
+
+package schema
+
+// GetType maps the stored type name back to the enum through the generated protobuf table
+// TypeOfDatatype_value. Trusted: the generated name/value tables are inverse of each other.
+//@ func (*DatatypeDoc).GetType
+//@   trusted generated protobuf enum tables
+//@   mode math
+//@   ensures its.Type == model.dtTypeName(model.TypeOfDatatype_COUNTER) ==> result == model.TypeOfDatatype_COUNTER
+//@   ensures its.Type == model.dtTypeName(model.TypeOfDatatype_MAP) ==> result == model.TypeOfDatatype_MAP
+//@   ensures its.Type == model.dtTypeName(model.TypeOfDatatype_LIST) ==> result == model.TypeOfDatatype_LIST
+//@   ensures its.Type == model.dtTypeName(model.TypeOfDatatype_DOCUMENT) ==> result == model.TypeOfDatatype_DOCUMENT
+//@   modifies nothing
